@@ -92,7 +92,10 @@ def leaf_traces(tid0, rng, criterion, count):
     n = rng.randint(6, 40)
     xs = [rng.randint(0, 12) for _ in range(n)]
     ys = [rng.randint(0, 9) + (2 * x if rng.random() < 0.7 else 0) for x in xs]
-    X = numpy.array(xs, dtype=numpy.float64).reshape((-1, 1))
+    # the unit of the feature is the caller's business: the same integers times a power of two (exact in floating
+    # point) give the same leaves and the same per-leaf least squares, so the trace keeps the unscaled integers
+    unit = 2.0 ** rng.choice([0, 0, 20, 33, -20])
+    X = numpy.array(xs, dtype=numpy.float64).reshape((-1, 1)) * unit
     y = numpy.array(ys, dtype=numpy.float64)
     md = rng.choice([1, 2, 3])
     msl = rng.choice([1, 2, 3, 5])
@@ -100,7 +103,7 @@ def leaf_traces(tid0, rng, criterion, count):
     model.fit(X, y)
     train_leaf = model.apply(X)
     probes = [rng.choice(xs) for _ in range(count - 2)] + [-1, 14]
-    P = numpy.array(probes, dtype=numpy.float64).reshape((-1, 1))
+    P = numpy.array(probes, dtype=numpy.float64).reshape((-1, 1)) * unit
     pl = model.apply(P)
     pred = model.predict(P)
     depth = int(model.tree_.max_depth)
@@ -109,7 +112,7 @@ def leaf_traces(tid0, rng, criterion, count):
         out.append(dict(id=tid0 + q, kind="leaf", ckind="const", Y=[0], W=[1], X=[0],
                         lx=[xs[k] for k in rows], ly=[ys[k] for k in rows], msl=msl, max_depth=md, criterion=criterion,
                         ev=[dict(a="leaf", x=int(x), depth=depth, **proj(pred[q]))],
-                        site="mlmodel.PiecewiseTreeRegressor(criterion=%r)" % criterion, sig="predict"))
+                        site="mlmodel.PiecewiseTreeRegressor(criterion=%r)" % criterion, sig="predict unit=%g" % unit))
     return out, (model.criterion == criterion)
 
 
